@@ -370,6 +370,10 @@ def check_c02(chk, rng):
     # covers every pending entry, the next cycle comes no later than it
     import slotcheck
     slotcheck.run(chk, "C02", rng, 240 if chk.tier == "quick" else 2000, ("C02.",))
+    # wake-ups inside a sub-graph whose cycles can be cut short by a captured exception: behaviours of AbortScan.tla replayed
+    # (the model itself and its named faults are checked by C15)
+    import abort_model
+    abort_model.run(chk, rng, own=("C02.",), nsim=100 if chk.tier == "quick" else 1500, models=False)
     chk.coverage["rule"] = ("random programs rich in wake-ups (scripted sources scheduling one-at-a-time or all at start, timers, "
                             "tagged delays that replace their pending time, inside nested children at depth 1-2), start in {1,2,3}, end before / "
                             "after the last request; distinct = distinct scenario text")
@@ -938,6 +942,10 @@ def check_c15(chk, rng):
     # error output never ticks with nothing to report
     import check_ops
     check_ops.check_c10(chk, rng, nscn=120 if chk.tier == "quick" else 1200, force_throw=True, with_models=False, tag="c15map")
+    # level B of the scan that a captured exception cuts short (AbortScan.tla): model-checked with its named faults, its
+    # behaviours replayed as scripted scheduler users inside a try_except sub-graph
+    import abort_model
+    abort_model.run(chk, rng)
     for c in cases[:3]:
         chk.sample({"scenario": c.scn.splitlines(), "specified_errors": c.pred["errs"], "specified_writes": c.pred["writes"][:12]})
     chk.coverage["rule"] = ("chains src -> pre* -> thrower -> post* with an independent branch; thrower captured per node, wrapped in try_except "
